@@ -65,6 +65,9 @@ class HeightFrame:
     def columns(self):
         return [f"c{k}" for k in range(self.ncols)]
 
+    def pyvc_len(self):
+        return self.height  # len(DataFrame) is its height
+
     def _same(self, name, ncols=None, fc_dtype=None):
         return HeightFrame(self.height, self.ncols if ncols is None else ncols, name, self.false_rows, self.merged, fc_dtype or self.fc_dtype)
 
